@@ -82,11 +82,13 @@ pub struct FaultKey<K: EnrKey> {
     pub calls: AtomicU64,
     pub fail_at: AtomicI64,
     pub fired: AtomicBool,
+    /// the failing call PANICS (user code unwinding through the library) instead of returning an error
+    pub panic_instead: AtomicBool,
 }
 
 impl<K: EnrKey> FaultKey<K> {
     pub fn new(inner: K) -> Self {
-        Self { inner, calls: AtomicU64::new(0), fail_at: AtomicI64::new(-1), fired: AtomicBool::new(false) }
+        Self { inner, calls: AtomicU64::new(0), fail_at: AtomicI64::new(-1), fired: AtomicBool::new(false), panic_instead: AtomicBool::new(false) }
     }
 }
 
@@ -96,6 +98,9 @@ impl<K: EnrKey> EnrKey for FaultKey<K> {
         let n = self.calls.fetch_add(1, Ordering::SeqCst) + 1;
         if n as i64 == self.fail_at.load(Ordering::SeqCst) {
             self.fired.store(true, Ordering::SeqCst);
+            if self.panic_instead.load(Ordering::SeqCst) {
+                panic!("injected signer panic");
+            }
             return Err(SigningError::verif_new("injected signer fault"));
         }
         self.inner.sign_v4(msg)
